@@ -1,6 +1,7 @@
 package drivers
 
 import (
+	"github.com/evstack/ev-node/block"
 	"crypto/rand"
 	"fmt"
 	mrand "math/rand"
@@ -121,6 +122,28 @@ func (s *syncRun) inject(class string, h uint64, via string, rng *mrand.Rand) {
 		return
 	}
 	m := s.full.M
+	if class == "P1" || class == "P1parked" {
+		// unsigned transaction data over P2P (what a peer can put into the data sync store): the genuine
+		// metadata of height h with transactions of the adversary's choosing. P1parked: the genuine header
+		// of h is delivered first, so that it waits in the cache (with its placeholder, if the block is empty).
+		if class == "P1parked" {
+			s.deliver("hdr", h, "chan")
+			if s.isDown() {
+				return
+			}
+		}
+		d := s.dataOf(h)
+		d.Txs = types.Txs{[]byte("forged-p2p-tx")}
+		s.c.Tr.Emit("Inject", world.F{"node": "full", "class": class, "kind": "data", "h": int(h), "via": "p2pdata", "dah": 0})
+		m.VerifDataInCh() <- block.NewDataEvent{Data: d, DAHeight: s.daH}
+		synctest.Wait()
+		if s.isDown() {
+			s.wg.Wait()
+			s.full.M = nil
+		}
+		s.full.Obs("inject")
+		return
+	}
 	var blob []byte
 	kind := "hdr"
 	var fh *types.SignedHeader
@@ -173,7 +196,7 @@ func (s *syncRun) inject(class string, h uint64, via string, rng *mrand.Rand) {
 	s.full.Obs("inject")
 }
 
-var advClasses = []string{"A1same", "A1alt", "A1time", "A3", "A3g", "A4", "A5", "A5own", "A6", "A7", "D1", "D1same", "D3", "D4"}
+var advClasses = []string{"A1same", "A1alt", "A1time", "A3", "A3g", "A4", "A5", "A5own", "A6", "A7", "D1", "D1same", "D3", "D4", "P1", "P1parked"}
 
 // RunAdversary interleaves every adversarial class, at every position relative to the genuine
 // events of a chain, on every ingress, with genuine traffic on a full node.
@@ -185,7 +208,7 @@ func RunAdversary(c *Ctx) {
 		nb := len(shape) + 1
 		for _, class := range advClasses {
 			for _, via := range []string{"da", "p2p"} {
-				if via == "p2p" && (class[0] == 'D' || class == "A6" || class == "A7") {
+				if via == "p2p" && (class[0] == 'D' || class[0] == 'P' || class == "A6" || class == "A7") {
 					continue
 				}
 				// position: the adversarial item for height t arrives when the node has applied `applied` blocks
@@ -213,7 +236,9 @@ func RunAdversary(c *Ctx) {
 									s.deliver("data", h, gvia)
 									s.deliver("hdr", h, gvia)
 								}
-								s.inject(class, s.ih+uint64(t)-1, "da", rng)
+								if class[0] != 'P' {
+									s.inject(class, s.ih+uint64(t)-1, "da", rng)
+								}
 								s.settle()
 								c.Count("advruns", 1)
 							})
